@@ -44,13 +44,13 @@ def observe_line(cid, line):
     return rec
 
 
-def observe_section(cid, lines, sync_extra=(), events_extra=()):
+def observe_section(cid, lines, sync_extra=(), events_extra=(), res=192):
     """A whole instrument section through the real pipeline (Chart.from_file); the same lines may also be
     dropped into the [SyncTrack] / [Events] sections of the chart, where they are foreign (unparsable)."""
     from chartgen import chart_text, outcome
     rec = {"id": cid, "props": ["C07"], "kind": "sec", "lines": [cps(x) for x in lines], "text": lines, "raised": "",
            "got": {"N": [], "S": [], "E": []}, "foreign": [list(sync_extra), list(events_extra)]}
-    text = chart_text(res=192, sync=["0 = TS 4", "0 = B 120000"] + list(sync_extra), events=list(events_extra),
+    text = chart_text(res=res, sync=["0 = TS 4", "0 = B 120000"] + list(sync_extra), events=list(events_extra),
                       tracks={"ExpertSingle": lines})
     kind, val = outcome(text)
     if kind == "raise":
@@ -199,7 +199,9 @@ def run(ctx):
     for name, big in (("m61", 2**61 - 1), ("2m61", 2 * (2**61 - 1)), ("p32", 2**32), ("p64", 2**64)):
         sec = ["5 = N 0 7", f"768 = S 2 96", f"768 = S 2 {96 + big}", f"768 = S 2 {96 + 2 * big}", "768 = N 1 0", f"900 = S 2 {big}", "900 = S 2 0",
                f"1000 = N 2 {5 + big}", "1100 = N 2 5", f"1200 = E w{big}", "1200 = E w0"]
-        recs.append(observe_section(f"cong-{name}", sec, [], []))
+        # a resolution large enough for the end of the longest hold to stay inside timedelta's range (at 192 ticks per
+        # beat the library's own arithmetic overflows, which says nothing about which lines are recognised)
+        recs.append(observe_section(f"cong-{name}", sec, [], [], res=96000000))
         ctx.evaluations += 1
     ctx.sample({"origin": "canonical line", "line": lines[0], "record": {k: v for k, v in recs[-1].items() if k in ("acc", "n", "s", "e")}})
     by_id = {x["id"]: x for x in recs}
